@@ -68,7 +68,7 @@ inductive Kind
   | re           -- *regexp.Regexp through an aux string ("" = nil)
   | rePat        -- tag pattern: "" or DEFAULT = nil
   | reGroup      -- group-by
-  | reList       -- []*regexp.Regexp (include / ignore, decoded jointly)
+  | reList       -- []*regexp.Regexp (include / ignore; decoded each on its own, encoded jointly)
   | mapList      -- []*MappingConf (rename), flattened from,to,from,to,...
 deriving DecidableEq, Repr, Inhabited
 
@@ -289,7 +289,8 @@ def applyK : Kind → Option W → Fld
   | .rePat, some (.s t) =>
     if t == "" || t == defaultTagText then ⟨.ptr none, false⟩ else ⟨.ptr (some t), false⟩
   | .rePat, _ => ⟨.ptr none, false⟩
-  -- decoded jointly in applySrcFld; this is the stand-alone reading (nil when empty)
+  -- compilePatterns: `for _, s := range exprs { ... append }` starting from a nil slice: nil
+  -- when the list is omitted or empty
   | .reList, some (.l xs) => if xs.isEmpty then ⟨.list none, false⟩ else ⟨.list (some xs), false⟩
   | .reList, _ => ⟨.list none, false⟩
   | .mapList, some (.l xs) => ⟨.list (some xs), false⟩
@@ -337,11 +338,17 @@ def okTag (w : WTag) : Bool := allTag.all (fun f => okK (tagKind f) (w.opt f))
 def applyTarget (w : WTarget) : Target := ⟨fun f => applyK (tgtKind f) (w.opt f)⟩
 def okTarget (w : WTarget) : Bool := allTgt.all (fun f => okK (tgtKind f) (w.opt f))
 
-/-- conf.go SourceConf.applyAux, one field. Include and Ignore are compiled into ONE slice
-    `patterns` and are sub-slices of it: `patterns[0:len(aux.Include)]` and
-    `patterns[len(aux.Include):]`; both are nil exactly when both lists are empty, otherwise
-    BOTH are non-nil (an empty sub-slice of a non-nil slice is not nil). -/
-def applySrcFld (w : SrcField → Option W) (f : SrcField) : Fld :=
+/-- conf.go SourceConf.applyAux, one field. Since `fix: an omitted include (ignore) list was
+    not inherited when the other list was written` Include and Ignore are compiled each into a
+    slice of its own (compilePatterns), like every other option field by field. -/
+def applySrcFld (w : SrcField → Option W) (f : SrcField) : Fld := applyK (srcKind f) (w f)
+
+/-- SourceConf.applyAux, one field, BEFORE that fix: Include and Ignore were compiled into ONE
+    slice `patterns` and were sub-slices of it: `patterns[0:len(aux.Include)]` and
+    `patterns[len(aux.Include):]`; both nil exactly when both lists are empty, otherwise BOTH
+    non-nil (an empty sub-slice of a non-nil slice is not nil). Kept to state the defect
+    (Props/C19 `absent_inherits_false_include_old`). -/
+def applySrcFldOld (w : SrcField → Option W) (f : SrcField) : Fld :=
   match srcKind f with
   | .reList =>
     if (wList (w .include)).length + (wList (w .ignore)).length == 0 then ⟨.list none, false⟩
@@ -352,6 +359,9 @@ def applySource (w : WSource) : Source :=
   { fld := applySrcFld w.opt
     target := w.target.map applyTarget
     tags := w.tags.map (·.map applyTag) }
+
+/-- applyAux of a whole source before the include / ignore fix -/
+def applySourceOld (w : WSource) : Source := { applySource w with fld := applySrcFldOld w.opt }
 
 def okSource (w : WSource) : Bool :=
   allSrc.all (fun f => okK (srcKind f) (w.opt f)) &&
@@ -440,11 +450,16 @@ def propagate : List Source → List Source
 def parse (c : List WSource) : Option (List Source) :=
   if c.all okSource then some (propagate (c.map applySource)) else none
 
+/-- `parse` before the include / ignore fix (`applySrcFldOld`) -/
+def parseOld (c : List WSource) : Option (List Source) :=
+  if c.all okSource then some (propagate (c.map applySourceOld)) else none
+
 /-! ## MarshalJSON -/
 
 /-- `%f` of a value given in nano-units: six decimals, round half to even (strconv rounds
-    the exact binary value half-to-even; for the non-dyadic decimal ties the model may differ
-    from Go, the generator does not write them) -/
+    the exact binary value half-to-even; for the non-dyadic decimal ties this may differ from
+    Go). Only used by `marshalSrcFldOld`: MarshalJSON printed error-backoff this way before
+    `fix: error-backoff lost its decimals beyond the sixth when re-encoded as JSON`. -/
 def round6 (x : Int) : Int :=
   let q := x / 1000
   let r := x % 1000
@@ -459,8 +474,9 @@ def marshalK (k : Kind) (f : Fld) : Option W :=
   | .triMarked, .bool b => some (.s (if b then "true" else if f.set then "false" else ""))
   -- aux.IncludeHidden = "false"; if ss.IncludeHidden { "true" }
   | .triPlain, .bool b => some (.s (if b then "true" else "false"))
-  -- if ss.isErrorBackoffSet { aux.ErrorBackoff = fmt.Sprintf("%f", ss.ErrorBackoff) }
-  | .floatMarked, .num n => if f.set then some (.n (round6 n)) else some (.s "")
+  -- if ss.isErrorBackoffSet { aux.ErrorBackoff = strconv.FormatFloat(ss.ErrorBackoff, 'f', -1, 64) }
+  -- (the shortest decimal that parses back to the same float64: the denotation is unchanged)
+  | .floatMarked, .num n => if f.set then some (.n n) else some (.s "")
   | _, .str s => some (.s s)
   | _, .num n => some (.n n)
   | _, .bool b => some (.b b)
@@ -473,14 +489,23 @@ def vList : Val → List String
   | .list (some xs) => xs
   | _ => []
 
-/-- SourceConf.MarshalJSON, one field. Include and Ignore are again sub-slices of one slice
-    `strings`, nil exactly when both are empty. -/
+/-- SourceConf.MarshalJSON, one field. Include and Ignore are (still) sub-slices of one slice
+    `strings`: both JSON null when both are empty, otherwise both written, an empty one as
+    `[]` (which applyAux reads back as nil, see Props/C19 `ListsInv_rt`). -/
 def marshalSrcFld (s : SrcField → Fld) (f : SrcField) : Option W :=
   match srcKind f with
   | .reList =>
     if (vList (s .include).v).length + (vList (s .ignore).v).length == 0 then none
     else some (.l (vList (s f).v))
   | k => marshalK k (s f)
+
+/-- SourceConf.MarshalJSON, one field, BEFORE the error-backoff fix:
+    `aux.ErrorBackoff = fmt.Sprintf("%f", ss.ErrorBackoff)` (six decimals). Kept to state the
+    defect (Props/C19 `reencode_fixpoint_false_old`). -/
+def marshalSrcFldOld (s : SrcField → Fld) (f : SrcField) : Option W :=
+  match srcKind f, (s f).v with
+  | .floatMarked, .num n => if (s f).set then some (.n (round6 n)) else some (.s "")
+  | _, _ => marshalSrcFld s f
 
 def marshalTag (t : Tag) : WTag := ⟨fun f => marshalK (tagKind f) (t.fld f)⟩
 def marshalTarget (t : Target) : WTarget := ⟨fun f => marshalK (tgtKind f) (t.fld f)⟩
@@ -493,6 +518,10 @@ def marshalSource (s : Source) : WSource :=
 /-- json.Marshal(ClientConf) as the server does for a managed client (http/controller.go
     "conf"): every key is written; a JSON null reads back like an absent key -/
 def toJSON (e : List Source) : List WSource := e.map marshalSource
+
+/-- json.Marshal(ClientConf) before the error-backoff fix -/
+def toJSONOld (e : List Source) : List WSource :=
+  e.map (fun s => { marshalSource s with opt := marshalSrcFldOld s.fld })
 
 /-- http.Client.GetClientConf: json.Unmarshal into ClientConf (applyAux + propagate) -/
 def ofJSON (j : List WSource) : Option (List Source) := parse j
